@@ -16,9 +16,9 @@ from ahbicht.expressions.format_constraint_expression_evaluation import (
 from ahbicht.expressions.requirement_constraint_expression_evaluation import requirement_constraint_evaluation
 from ahbicht.models.condition_nodes import EvaluatedFormatConstraint
 
-RC_KEYS = ["1", "2", "3", "4", "77", "499", "2000", "2499"]
-HINT_KEYS = ["500", "501", "502", "900"]
-FC_KEYS = ["901", "902", "903", "999"]
+RC_KEYS = ["1", "2", "499", "2000", "3", "4", "77", "2499"]  # the first four are what most generators draw from: both range boundaries are among them
+HINT_KEYS = ["501", "900", "500", "502"]  # 500 and 900 are the boundaries of the hint range
+FC_KEYS = ["901", "999", "902", "903"]  # 901 and 999 are the boundaries of the format-constraint range
 
 
 def kind_of(key: str) -> Optional[str]:
